@@ -43,6 +43,18 @@ _OFFSET_H_RE = re.compile(r"^(\d+(?:\.\d+)?)h$")
 _OFFSET_M_RE = re.compile(r"^(\d+(?:\.\d+)?)m$")
 
 
+def format_number(value) -> str:
+  '''Formats a number like the `g` presentation type, but never in exponent notation, which TTML does not allow
+  '''
+  s = f"{value:g}"
+
+  if "e" in s or "E" in s:
+    s = f"{value:f}" if abs(value) >= 1 else f"{value:.15f}".rstrip("0")
+    if "." in s:
+      s = s.rstrip("0").rstrip(".")
+
+  return s
+
 def parse_length(attr_value: str) -> typing.Tuple[float, str]:
   '''Parses the TTML length in `attr_value` into a (length, units) tuple'''
 
